@@ -342,6 +342,11 @@ theorem tmod_day_range (t : Int) : InI64 (Int.tmod t 86400000) := by
   unfold InI64 minI64 maxI64
   omega
 
+theorem millisSinceMidnight_range (t : Int) : InI64 (millisSinceMidnight t) := by
+  have := C01Mul.mul_tmod_natAbs_lt t 86400000 (by decide)
+  unfold millisSinceMidnight InI64 minI64 maxI64
+  split <;> omega
+
 theorem checkedAdd_fst_range (a b : Int) : InI64 (checkedAdd a b).1 := by
   unfold checkedAdd; simp only; split <;> exact wrap_inI64_r _
 theorem checkedSub_fst_range (a b : Int) : InI64 (checkedSub a b).1 := by
